@@ -92,6 +92,13 @@ fn engine_rules(h: &Hist, out: &Outcome, o: &mut OracleOut) {
                 _ => "C20",
             };
             o.violations.push(viol(prop, "R-op-panicked", op.inv_seq, &format!("{} panicked: {}", op.op.name(), short(m)), format!("{:?} panicked: {}", op.op, m)));
+            if matches!(op.op, Op::Get { .. } | Op::GetMut { .. } | Op::GetTtl { .. }) {
+                // a lookup that panics neither returns the entry nor reports it absent / its TTL
+                o.violations.push(viol("C03", "R-lookup-panicked", op.inv_seq, &format!("{} panicked: {}", op.op.name(), short(m)), format!("{:?} panicked: {}", op.op, m)));
+            }
+            if prop != "C20" {
+                o.violations.push(viol("C20", "R-op-panicked", op.inv_seq, &format!("{} panicked: {}", op.op.name(), short(m)), format!("{:?} panicked: {}", op.op, m)));
+            }
         }
     }
     match &out.end {
